@@ -111,7 +111,7 @@ class RegexGenerator:
 
     def _generate_max_repeat(self, value: Tuple[int, int, List[Any]]) -> str:
         min_count, max_count, val = value
-        if max_count in (MAX_REPEAT, MAXREPEAT):
+        if max_count == MAXREPEAT:
             max_count = max(self._max_repeat, min_count)
         count = self._random.random_int(min_count, max_count)
         return "".join(self._generate_pattern(val) for _ in range(count))
